@@ -268,6 +268,20 @@ impl Walrus {
                 if s.ends_with("_index.db") {
                     continue;
                 }
+                // WAL files are named by their creation time in milliseconds and are
+                // pre-sized; anything else (left-over `*.tmp` of the index files, stray
+                // or truncated files) is not ours to parse.
+                let is_wal_name = path
+                    .file_name()
+                    .and_then(|n| n.to_str())
+                    .map(|n| !n.is_empty() && n.bytes().all(|b| b.is_ascii_digit()))
+                    .unwrap_or(false);
+                if !is_wal_name {
+                    continue;
+                }
+                if entry.metadata().map(|m| m.len() < MAX_FILE_SIZE).unwrap_or(true) {
+                    continue;
+                }
                 files.push(s.to_string());
             }
         }
